@@ -900,6 +900,44 @@ impl PagedCachedFile {
     }
 }
 
+// Verification hook (cache layer, read-only, add-only): see page_store/verif/cached.rs
+#[cfg(all(redb_verif, not(redb_no_std)))]
+impl PagedCachedFile {
+    pub(super) fn verif_state(&self) -> super::verif_cached::VCacheState {
+        let mut st = super::verif_cached::VCacheState {
+            read_cache_bytes: self.read_cache_bytes.load(Ordering::Acquire),
+            write_buffer_bytes: self.write_buffer_bytes.load(Ordering::Acquire),
+            committed_pages_buffered: self.committed_pages_buffered.load(Ordering::Acquire),
+            next_eviction_stripe: self.next_eviction_stripe.load(Ordering::Acquire),
+            max_cache_size: self.max_cache_size,
+            io_failed: self.file.io_failed.load(Ordering::Acquire),
+            closed: self.file.closed.load(Ordering::Acquire),
+            ..Default::default()
+        };
+        for (i, stripe) in self.read_cache.iter().enumerate() {
+            if let Ok(lock) = stripe.try_read() {
+                st.read_cache
+                    .extend(lock.iter().map(|(k, v)| (*k, v.len())));
+            } else {
+                st.locked_stripes.push(i);
+            }
+        }
+        for (i, stripe) in self.write_buffer.iter().enumerate() {
+            if let Ok(lock) = stripe.try_lock() {
+                st.write_buffer
+                    .extend(lock.cache.iter().map(|(k, v)| (*k, v.as_ref().map(|x| x.len()))));
+            } else {
+                st.locked_stripes.push(i);
+            }
+        }
+        st.read_cache.sort_unstable();
+        st.write_buffer.sort_unstable();
+        st.locked_stripes.sort_unstable();
+        st.locked_stripes.dedup();
+        st
+    }
+}
+
 #[cfg(test)]
 mod test {
     use crate::StorageBackend;
